@@ -19,6 +19,16 @@ from ..pathcommon import _drive, DocTable, alt_descendant_order_ok, lockey, rand
 _table: Any = None
 
 
+def _same_on_shared(path: Any, doc: Any, parts: List[Any]) -> bool:
+    """Sync and async evaluation of the document with equal containers shared give the same locations in the same order."""
+    from ..pathcommon import _acollect_matches, share_containers
+
+    sdoc = share_containers(doc)
+    if [m.parts for m in path.finditer(sdoc)] != parts:
+        return False
+    return [m.parts for m in _drive(_acollect_matches(path, sdoc, {}))] == parts
+
+
 def replay(rec: Dict[str, Any]) -> List[Tuple[str, Dict[str, Any], str]]:
     import jsonpath
 
@@ -63,6 +73,9 @@ def replay(rec: Dict[str, Any]) -> List[Tuple[str, Dict[str, Any], str]]:
                         disc = "findall-differs-from-finditer"
                     elif not (len(avals := _drive(path.findall_async(doc))) == len(ms) and all(a is m.obj for a, m in zip(avals, ms))):
                         disc = "async-twin-selects-other-nodes"
+                    elif (d == len(tbl) - 1 or d % 5 == 3) and isinstance(doc, (list, dict)) and not _same_on_shared(path, tbl.fresh(d), obs_parts):
+                        # the same document with every group of equal containers being ONE object (a tree to JSON, a DAG to the host)
+                        disc = "document-with-shared-containers-selects-other-nodes"
                     elif d == 10 or d == 7:
                         # one environment object, the same text before and after its options are changed: what the text means is what
                         # the options say at the time of the call
